@@ -91,6 +91,16 @@ class MappingAdapter:
                 return [len(c)]
             if name == "iter":
                 return list(iter(c))
+            if name == "iter_touch":
+                seen, bound = [], 3 * len(c) + 5
+                for k in c:
+                    seen.append(k)
+                    if len(seen) > bound:
+                        raise Unexpected("an iteration with lookups in between does not end (%d keys so far from %d entries)" % (len(seen), len(c)))
+                    c.get(op["k"])          # a lookup of another (or the same, or an absent) key between two steps
+                if len(set(seen)) != len(seen):
+                    raise Unexpected("an iteration with lookups in between lists a key twice: %r" % (seen,))
+                return sorted(seen)
             if name == "keys":
                 return list(c.keys())
             if name == "values":
